@@ -21,6 +21,21 @@ void h_setnum(void) {
   VF_ASSERT((u32)ns >= idx + 1 && (u32)ns <= size, "node storage covers the written index and never exceeds the declared size");
   VF_WITNESS();
 }
+/* ---- cleaning before a transfer: whatever an earlier transfer left in the node, afterwards every declared slot is zero (history independence) */
+void h_cleanup(void) {
+#ifndef CSZ
+#define CSZ 2
+#define CAL 1
+#endif
+  u32 size = CSZ, alloc = CAL;      /* enumerated sizes: the real vector code then allocates concrete sizes */
+  s32 vi[3], oi[3] = {7, 7, 7}, ni = -1, nd = -1; double vd[3], od[3] = {7, 7, 7};
+  for (u32 i = 0; i < 3; i++) { vi[i] = (s32)vf_nd32(); vd[i] = vf_nddouble(); }
+  u32 rc = w_cleanup(size, alloc, (char *)vi, (char *)vd, (char *)oi, (char *)od, (char *)&ni, (char *)&nd);
+  VF_ASSERT(rc == 0, "no exception");
+  VF_ASSERT((u32)ni == size && (u32)nd == size, "both value arrays have the declared size after cleaning");
+  for (u32 i = 0; i < 3; i++) { if (i >= size) break; VF_OBS(oi[i]); VF_OBS(vf_d2bits(od[i])); VF_ASSERT(oi[i] == 0 && vf_d2bits(od[i]) == 0, "a value of an earlier transfer survives the cleaning of the node"); }
+  VF_WITNESS();
+}
 /* ---- Copy<T>: exactly dest[b2 + k] = src[b1 + k], nothing else */
 #define NN 3
 void h_copy(void) {
